@@ -122,6 +122,7 @@ H_LETTERS = collections.OrderedDict([
     ('success-after-retry', ['drop', 'valid']),
     ('success:cmd', ['valid']),  # ... through Inverter.send_command() instead of read_sensor()
     ('silent:cmd', None),
+    ('silent:x2', None),         # two calls at the same time (one waits for the other), neither is answered
     ('NEWLOOP', None),           # the calls so far ran in one asyncio.run(), the following ones run in the next
 ])
 
@@ -146,6 +147,29 @@ def run_b(cfg, hist):
     for name in hist:
         if name == 'NEWLOOP':
             s.newloop()
+            continue
+        if name == 'silent:x2':
+            import asyncio
+            s.peer.forced = ['drop'] * (2 * (cfg['R'] + 1))
+            f1, f2 = op_call(s.inv, 'read_sensor'), op_call(s.inv, 'read_setting')
+
+            async def two():
+                return await asyncio.gather(f1(), f2(), return_exceptions=True)
+            obs = s.call(two)
+            s.peer.forced = []
+            s.drain()
+            for clause, cause in judge(obs):
+                vio.append((clause, cause))
+            if obs.result[0] == 'ok':
+                counts = []
+                for e in obs.result[1]:
+                    if type(e).__name__ != 'RequestFailedException':
+                        vio.append(('only-InverterError', f'one of two overlapping calls ended with {type(e).__name__}: {str(e)[:60]}'))
+                    else:
+                        counts.append(e.consecutive_failures_count)
+                if len(counts) == 2 and sorted(counts) != [model + 1, model + 2] and not amb:
+                    vio.append(('consecutive-failures-count', f'{sorted(counts)} reported by two overlapping calls, {model} failures before them'))
+                model += 2
             continue
         s.peer.forced = h_script(cfg, name)
         if name == 'connect-error':
